@@ -31,15 +31,27 @@ def closure_paths(sy, clo):
     return sy.apply(clo, [("bound", 0)], S.St(), {"sp": "?"})
 
 
-def check_comparator(fx, rep, rule, key, sy, clo, sb, field, query, params=None):
+def check_comparator(fx, rep, rule, key, sy, clo, sb, field, query, params=None, context=()):
     """C02.4: comparator = entry string (read from `field`) compared with the query by str::cmp,
-    entry on the left; unreadable strings sort Greater"""
+    entry on the left; unreadable strings sort Greater. `context`: what is known where this comparator is used (one closure
+    shared by the by-method and the by-params lookup decides on `frame.parameters` inside)."""
     m = ("bound", 0)
     try:
         paths = closure_paths(sy, clo)
     except S.Undecidable as e:
         rep.undecidable(rule, key + "/shape", loc="", construct=e.msg)
         return
+    if context:
+        kept = []
+        for st_, o_ in paths:
+            a_ = fc.assignment(st_.conds)
+            if any(a_.get(fc.canon_atom(at)[0]) is (not pol) for at, pol in context):
+                continue
+            st2 = st_.copy()
+            ctx = {fc.canon_atom(at)[0] for at, pol in context}
+            st2.conds = tuple((a0, p0) for a0, p0 in st_.conds if fc.canon_atom(a0)[0] not in ctx)
+            kept.append((st2, o_))
+        paths = kept
     rd = call(R.READ, sb, mk_field(m, field))
 
     def ref(o):
@@ -257,11 +269,13 @@ def check_frame_comparators(fx, rep, rule):
     clos, sy, b = r
     slf, fr = ("in", "self"), ("in", "frame")
     sb = mk_field(slf, "string_bytes")
+    has_params = ("is", mk_field(fr, "parameters"), "Some")
     if "lines" in clos:
-        check_comparator(fx, rep, rule, "%s/comparator/frame-by-method" % rule, sy, clos["lines"], sb, "obfuscated_name_offset", mk_field(fr, "method"))
+        check_comparator(fx, rep, rule, "%s/comparator/frame-by-method" % rule, sy, clos["lines"], sb, "obfuscated_name_offset", mk_field(fr, "method"),
+                         context=((has_params, False),))
     if "params" in clos:
         check_comparator(fx, rep, rule, "%s/comparator/frame-by-params" % rule, sy, clos["params"], sb, "obfuscated_name_offset",
-                         mk_field(fr, "method"), params=mk_payload(mk_field(fr, "parameters"), "Some", "0"))
+                         mk_field(fr, "method"), params=mk_payload(mk_field(fr, "parameters"), "Some", "0"), context=((has_params, True),))
     rep.floor(rule + "/comparators", len(clos), 2, "comparator closures in remap_frame")
 
 
